@@ -28,9 +28,13 @@ package ecs
 // complete a structural operation (C07); what they may touch (component values, observer and
 // filter registrations, their own queries) is outside the state these contracts describe.
 //@ func (*storage).cleanupArchetypes
-//@   serves C04
-//@   trusted
+//@   serves C04 C06
+//@   posttrusted
 //@   requires indexInv(s)
+//@   assumes  len(s.slices.relationsCleanup) == 0
+//@   ensures  checked-scratch: len(s.slices.relationsCleanup) == 0
+//@   loop 1 invariant scratch: len(newRelations) == 0
+//@   loop 2 invariant scratch: len(newRelations) == 0
 //@   ensures  inv: indexInv(s)
 //@   ensures  pool: forall h Entity :: alive(&s.entityPool, h) == old(alive(&s.entityPool, h))
 //@   ensures  issued: forall h Entity :: epIssued(&s.entityPool)[h] == old(epIssued(&s.entityPool)[h])
@@ -197,3 +201,26 @@ package ecs
 //@   ensures  observers: forall e int :: 0 <= e && e < 256 ==> !s.observers.hasObservers[e] && len(s.observers.observers[e]) == 0
 //@   ensures  cache: len(s.cache.filters) == 0 && len(s.cache.indices) == 0
 //@   ensures  unregistered: forall k int :: 0 <= k && k < old(len(s.cache.filters)) ==> old(s.cache.filters[k].filter).cache == maxCacheID
+
+// Callees of cleanupArchetypes with frame-only contracts (what they may change is inferred from
+// their bodies; nothing is assumed about their results): they let the body of cleanupArchetypes
+// be checked for its scratch-list invariant.
+//@ func (*archetype).getTableSlowPath
+//@   serves C04
+//@   trusted
+//@   maypanic
+
+//@ func (*storage).moveEntities
+//@   serves C04
+//@   trusted
+
+//@ func (*storage).getExchangeTargetsUnchecked
+//@   serves C04
+//@   trusted
+
+// RemoveTarget (C04): the removed target no longer has a per-target table list in this archetype.
+//@ func (*archetype).RemoveTarget
+//@   serves C04
+//@   requires a.archetypeData != nil && a.targetTables != nil
+//@   loop 1 invariant kept: a.targetTables != nil
+//@   ensures  removed: !__has(a.targetTables, entity.id)
